@@ -1,6 +1,7 @@
 package props
 
 import (
+	"bytes"
 	"errors"
 	"net"
 	"fmt"
@@ -249,6 +250,11 @@ func runC06(t *testing.T, e *worlds.Env, tier string) (bool, any) {
 			histMsg = p.Valid(tp, true)
 			sample.History = len(histMsg)
 		}
+		if !udp && bytes.HasPrefix(msg, []byte("PRI * HTTP/2.0")) && tp.Prob(1, 2, "h2-history") {
+			// an HTTP/2 client before an HTTP/2 client: header compression state is per connection
+			histMsg = gen.HTTP2Valid(tp)
+			sample.History = len(histMsg)
+		}
 		ndel := 2 + tp.Choose(3, "n-deliveries")
 		type plan struct {
 			chunks []worlds.Chunk
@@ -303,8 +309,8 @@ func runC06(t *testing.T, e *worlds.Env, tier string) (bool, any) {
 			// what other connections sent earlier)
 			ca := worlds.ClientAddr(1)
 			gen.FakeRemoteIP, gen.FakeRemotePort, gen.FakeLocalIP, gen.FakeLocalPort = ca.IP, ca.Port, net.ParseIP("10.0.0.1"), 443
-			if ok, err := gen.MatchWhole(pm.Inner, msg, true); err == nil {
-				refBeforeOK, refBeforeSet = ok, true
+			if ok, err := gen.MatchWhole(pm.Inner, msg, true); true {
+				refBeforeOK, refBeforeSet = ok && err == nil, true // (an error is "not matched" for this comparison)
 			}
 			if histMsg != nil {
 				// history: another client of the same protocol goes first
@@ -421,7 +427,7 @@ func runC06(t *testing.T, e *worlds.Env, tier string) (bool, any) {
 		gen.FakeRemoteIP, gen.FakeRemotePort, gen.FakeLocalIP, gen.FakeLocalPort = ca.IP, ca.Port, net.ParseIP("10.0.0.1"), 443
 		// (only for messages that fit the matching buffer: beyond it the router gives up by design)
 		okAfter, errAfter := gen.MatchWhole(pm.Inner, dels[0].model.App, true)
-		if refBeforeSet && errAfter == nil && okAfter != refBeforeOK {
+		if refBeforeSet && (okAfter && errAfter == nil) != refBeforeOK {
 			e.S.Fail("C06/history-dependent", sample.Matcher, "input (%d bytes, first % x): %s answered matched=%v on the complete input before any other connection, and matched=%v on the same bytes after %d other evaluations (history connection: %v)",
 				len(dels[0].model.App), head(dels[0].model.App, 16), sample.Matcher, refBeforeOK, okAfter, len(pm.Evals), histMsg != nil)
 			return
